@@ -51,7 +51,8 @@ REQUIRED = {
             "falsy-component": 100},
     "C11": {"feedback-value-checked": 5000, "feedback-type-checked": 5000, "raised-getter-unchanged": 20,
             "hint:int": 50, "hint:float": 50, "hint:bool": 50, "hint:str": 50, "hint:int[]": 20, "hint:rot": 20, "hint:none": 50,
-            "explicit-key": 50, "get_-prefix-stripped": 50, "mode:disabled": 200, "mode:test": 100,
+            "explicit-key": 50, "get_-prefix-stripped": 50, "getter-function-named-differently-from-its-attribute": 100,
+            "underscore-named-feedback-method": 100, "mode:disabled": 200, "mode:test": 100,
             "same-list-object-mutated": 100, "string-return-hint": 100, "fault-after-fms-attached-mid-run": 10},
 }
 ASSUMPTIONS = {p: ["the robot thread is parked at the gate in NotifierDelay.wait() while the harness changes driver-station words and reads NetworkTables (simenv.py)",
@@ -84,7 +85,7 @@ def gen_case(rng, pid, uid):
     comps = {}
     defaults = [0, False, None, "idle", 1.5, -1, True, ""]
     fbnames = ["get_x", "x", "get_get_x", "getter", "get_target", "is_ready", "get_", "getx", "get_get_", "widget_count", "target_get_x",
-               "budget_left"]
+               "budget_left", "_get_v", "_w"]
     p_fb = 0.8 if pid == "C11" else 0.4
     for cn in cnames:
         c = {"has_setup": rng.random() < 0.7, "has_on_enable": rng.random() < 0.7, "has_on_disable": rng.random() < 0.7,
@@ -293,6 +294,7 @@ def _gen_fb(rng, fbnames, j, uid):
     hint = rng.choice(HINTS)
     return {"name": name, "key": key, "hint": hint, "variant": rng.randrange(5),
             "nohint_kind": rng.choice(["float", "bool", "str", "int"]),
+            "fn_name": rng.choice([None, None, None, None, None, "wrapper", "<lambda>"]),
             "same_object": bool(hint and hint.endswith("[]") and rng.random() < 0.4),
             "string_hint": bool(hint) and rng.random() < 0.3}
 
@@ -889,6 +891,10 @@ def check_feedbacks(spec, run, V, acc):
                 V.ev("same-list-object-mutated")
             if fb.get("string_hint"):
                 V.ev("string-return-hint")
+            if fb.get("fn_name"):
+                V.ev("getter-function-named-differently-from-its-attribute")
+            if fb["name"].startswith("_"):
+                V.ev("underscore-named-feedback-method")
             if fb.get("key") is not None:
                 V.ev("explicit-key")
             elif fb["name"].startswith("get_"):
